@@ -58,6 +58,15 @@ type XDesc struct {
 	XM    []DXModel `json:"xm"` // parallel to models
 	JW    []int     `json:"jw"` // parallel to meshes: 0 = no Joint/Weight attributes, k = rigged for joints 0..k-1
 	TDiv  int       `json:"tdiv"` // denominator of frame numerators (0 => Div)
+	L2    L2Pred    `json:"l2"`   // what the L2 model (specs/GltfAnimWriter.tla) predicts; carried to the trace, compared by TLC
+}
+
+// L2Pred: status "" = no prediction (seeded scenes).
+type L2Pred struct {
+	Status string `json:"status"`
+	Nodes  int    `json:"nodes"`
+	Skins  int    `json:"skins"`
+	Anims  int    `json:"anims"`
 }
 
 func (d XDesc) dv() float64 {
